@@ -89,3 +89,10 @@ func (s *Service) VerifConnQueueLens() map[string]int {
 	}
 	return out
 }
+
+// VerifStopping reports whether Stop is in progress.
+func (s *Service) VerifStopping() bool {
+	s.mu.Lock()
+	defer s.mu.Unlock()
+	return s.stopping
+}
